@@ -149,6 +149,12 @@ func main() {
 		}
 	}
 	counts := map[string]int{}
+	if os.Getenv("VERIF_DEBUG_INITONLY") != "" {
+		e.stableKeys()
+		for _, ob := range e.initOnlyObls {
+			fmt.Printf("initonly-scan %s %s %s\n", ob.Verdict, ob.Name, ob.Output)
+		}
+	}
 	for _, ob := range e.engineObls {
 		if ob.Verdict != "discharged" {
 			fmt.Printf("%-10s %s (engine)\n   %s\n", ob.Verdict, ob.Name, ob.Output)
